@@ -231,7 +231,25 @@ func c27R2(c *engine.Ctx, p *poolFns) {
 				return false
 			}
 			cut := engine.EdgesWhere(a.fn, isLimit)
-			c.Check(len(cut) == 2 && everyPathPasses(a.fn, st, cut, nil), "C27.R2", key+"/guarded-by-limit", st.Pos(), "every path to total++ must pass the true edge of max < 1 or total < max (limit edges found: %d)", len(cut))
+			viaPredicate := false
+			if len(cut) == 0 {
+				// the test may live in a predicate method of the same receiver
+				// (canCreate()): its true edge counts when the predicate can
+				// only be true through the same two comparisons
+				for e := range engine.EdgesWhere(a.fn, func(cm engine.Cmp) bool {
+					b, isB := engine.ConstBool(cm.Y)
+					call := engine.CallOf(cm.X)
+					if call == nil || !isB || !((b && cm.Op == token.EQL) || (!b && cm.Op == token.NEQ)) {
+						return false
+					}
+					h := call.Common().StaticCallee()
+					return h != nil && len(call.Common().Args) == 1 && engine.Unwrap(call.Common().Args[0]) == ssa.Value(a.fn.Params[0]) && limitPredicate(h, isLimit)
+				}) {
+					cut[e] = true
+					viaPredicate = true
+				}
+			}
+			c.Check((len(cut) == 2 || (viaPredicate && len(cut) == 1)) && everyPathPasses(a.fn, st, cut, nil), "C27.R2", key+"/guarded-by-limit", st.Pos(), "every path to total++ must pass the true edge of max < 1 or total < max (limit edges found: %d)", len(cut))
 			// same critical section: the lock is held at the limit tests and at the
 			// store, and no Unlock lies on a path from a limit edge to the store
 			sameCS := true
@@ -903,4 +921,51 @@ func c28R4(c *engine.Ctx, p *poolFns) {
 		ok := reqCall != nil && stuckCall != nil && engine.Locksets(p.acquire)[reqCall]["p:c.mu"]
 		c.Check(ok, "C28.R4", "acquire/request-registered-under-mu", p.acquire.Pos(), "the waiter must register its request while still holding DC.mu (the emptiness test and the registration are one critical section, so a release in between is not missed)")
 	}
+}
+
+// limitPredicate: the bool function h can return true only through the
+// comparisons accepted by isLimit — each return value is such a comparison, the
+// constant false, the constant true on a path that passed an isLimit edge, or a
+// phi of these.
+func limitPredicate(h *ssa.Function, isLimit func(engine.Cmp) bool) bool {
+	if h == nil || len(h.Blocks) == 0 {
+		return false
+	}
+	cut := engine.EdgesWhere(h, isLimit)
+	var okVal func(v ssa.Value, at ssa.Instruction, d int) bool
+	okVal = func(v ssa.Value, at ssa.Instruction, d int) bool {
+		if d > 6 {
+			return false
+		}
+		switch x := v.(type) {
+		case *ssa.Const:
+			b, isB := engine.ConstBool(x)
+			if !isB {
+				return false
+			}
+			return !b || everyPathPasses(h, at, cut, nil)
+		case *ssa.BinOp:
+			cm := engine.Cmp{Op: x.Op, X: x.X, Y: x.Y}
+			return isLimit(cm) || isLimit(cm.Swap())
+		case *ssa.Phi:
+			for i, e := range x.Edges {
+				pred := x.Block().Preds[i]
+				if b, isB := engine.ConstBool(e); isB && b && cut[[2]*ssa.BasicBlock{pred, x.Block()}] {
+					continue // "true" arriving on the limit edge itself (a || b)
+				}
+				if !okVal(e, pred.Instrs[len(pred.Instrs)-1], d+1) {
+					return false
+				}
+			}
+			return true
+		}
+		return false
+	}
+	rets := engine.Returns(h)
+	for _, r := range rets {
+		if len(r.Results) != 1 || !okVal(r.Results[0], r, 0) {
+			return false
+		}
+	}
+	return len(rets) > 0
 }
